@@ -421,12 +421,12 @@ type state struct {
 	// (the configuration last accepted) except while a storage fault on a list
 	// file leaves it open which of the configurations applied since is (see
 	// c01_wide.go).
-	cands      []*cand
-	svcRules   map[string][]*rules.NetworkRule
-	cached     map[string]map[string]bool // name|qtype -> kinds of upstream replies seen before ("ok", "servfail"): the cache may serve them again
-	cacheOn    bool
-	aaaaOff    bool
-	unspec     int
+	cands    []*cand
+	svcRules map[string][]*rules.NetworkRule
+	cached   map[string]map[string]bool // name|qtype -> kinds of upstream replies seen before ("ok", "servfail"): the cache may serve them again
+	cacheOn  bool
+	aaaaOff  bool
+	unspec   int
 }
 
 func paused(w [7]Day, now time.Time) bool {
@@ -522,6 +522,9 @@ type runner struct {
 	// intact.
 	fault  *listFault
 	window bool
+	// lastChangeIntact: the latest rule-changing admin call was made while no
+	// list file was faulty.
+	lastChangeIntact bool
 	// acceptedKey is the rule text of the configuration handled last.
 	acceptedKey string
 	// abandon: a concurrent phase ended in a deadlock; the parked tasks hold the
@@ -598,6 +601,13 @@ func (r *runner) api(method, path string, body any, mayRefuse bool) (applied boo
 		return false, nil, err
 	}
 	r.c.Eventf("api %s %s -> %d", method, path, code)
+	if mayRefuse {
+		// Whether the latest rule-changing call was made with every list file
+		// readable: only such a call is known to have been applied in full
+		// (some calls re-initialise the engines themselves, at once, and are
+		// not repeated when the storage is healed afterwards).
+		r.lastChangeIntact = r.fault == nil
+	}
 	if code != http.StatusOK {
 		if mayRefuse && r.window {
 			r.c.Probe("api_refused_under_fault")
